@@ -64,6 +64,10 @@ CLAIMS.update({
     "C06": ("regex-tree query on the occurrence matcher (zero-width neighbours, hole inside the group, escape, flags), def-use of match spans into hit records, dominating facts at the record point, sibling comparison of the references and rename handlers", "Decides the mechanics that turn occurrences into ranges: one searcher is shared by references, documentHighlight and rename; its pattern consumes nothing but the name (so adjacent occurrences are all found), the name is inserted through re.escape and matched case-insensitively; a hit's record is (0-based line index, start, end) of the name group and the hit is re-resolved at a column inside the identifier; the searched text is comment-stripped by a string-literal-aware cut, preprocessor lines are skipped, a hit is recorded only under a non-None resolution and an identity (qualified-name) comparison, the word expander tries character-literal patterns before the word pattern; rename and references call the searcher with the same arguments under the same restriction code and pass line/start/end and newName through unchanged. Not decided: which occurrences bind to the entity (get_definition's answer, C05), continuation lines."),
 })
 
+CLAIMS.update({
+    "C08": ("dominating facts at every statement-reader call and every define/undef/include site, regex-tree enumeration of parenthesis skeletons, def-use of the macro table through the recursive include call, taint of macro text into regex sinks", "Decides necessary conditions around the conditional state machine: in parse() every statement reader is behind the skip test, which tests the same 1-based line variable against region[0] <= line <= region[1] and the directive-line list produced by the preprocessing pass of the same parse (run iff preproc); region bounds are stored as i + 1; #define, #undef, #include and directive-line recording happen only under a flag computed over the whole stack of open conditionals; macro and parameter names are escaped and bodies never used as replacement templates; every match of the `defined` rewriting pattern has balanced parentheses and the looked-up group is the identifier; the macro table is a copy, passed to and taken back from included files, used by every condition, stored on the file; the expansion cache is keyed by everything its entries are computed from. Not decided (said plainly): that the #if/#elif/#else automaton and the expression evaluator agree with a reference preprocessor for all nestings and truth assignments, and character-exact expansion of function-like macro arguments."),
+})
+
 NA_REASON = "check under construction in this round (rules designed in DESIGN.md section 3, not yet implemented); will move to checks once its rules run"
 
 
